@@ -127,3 +127,41 @@ Theorem C08_monotone_v0_refuted :
     no_restart mid /\ ~ n1 < n2.
 Proof. exact monotone_v0_refuted. Qed.
 Print Assumptions C08_monotone_v0_refuted.
+
+(* ---- composition with C10 (proofs/Compose_chain.v) -----------------------------------------------------------
+   The combined machine [Compose_chain.crun cl ops] interleaves the operations above with CancelTx calls
+   (OCancel: the target is one of the transactions accepted so far, named by position; every other answer
+   is free).  [Compose_chain.strip ops] is the history with the cancellations removed,
+   [Compose_chain.send_events t] the Send / Conf / Restart events of a combined trace.  Frame fact read off
+   evmclient.go and not covered by a correspondence run of its own: CancelTx holds the client mutex, never
+   assigns c.nonce and never touches the monitor's confirmed nonce.  Non-vacuity: Compose_chain.ex_chain. *)
+From MevVerif Require model.Cancel proofs.Compose_chain.
+
+(* C08 o C10.  What the node sees of the Send calls of a history with cancellations is exactly what it sees
+   of the same history without them: a cancellation -- accepted, rejected or refused, of any target --
+   consumes no nonce and leaves the sender's counter where it was; so every theorem above holds for the
+   Send events of a combined history. *)
+Theorem C08_cancel_transparent : forall cl ops,
+  Compose_chain.send_events (Compose_chain.crun cl ops) = run init (Compose_chain.strip ops).
+Proof. exact Compose_chain.cancel_transparent. Qed.
+Print Assumptions C08_cancel_transparent.
+
+(* In particular nonces of accepted Sends increase strictly whatever cancellations lie between them ... *)
+Theorem C08_monotone_across_cancels : forall cl ops pre p1 n1 mid p2 n2 post,
+  wf_ops (Compose_chain.strip ops) ->
+  Compose_chain.crun cl ops =
+    pre ++ Compose_chain.ESend (TSend p1 (Accepted n1)) :: mid ++ Compose_chain.ESend (TSend p2 (Accepted n2)) :: post ->
+  no_restart (Compose_chain.send_events mid) -> n1 < n2.
+Proof. exact Compose_chain.monotone_across_cancels. Qed.
+Print Assumptions C08_monotone_across_cancels.
+
+(* ... and none is skipped: the next accepted nonce is the larger of previous+1 and the highest pending
+   answer since, however often the previous transaction was cancelled in between. *)
+Theorem C08_no_skip_across_cancels : forall cl ops pre p1 n1 mid p2 n2 post,
+  wf_ops (Compose_chain.strip ops) ->
+  Compose_chain.crun cl ops =
+    pre ++ Compose_chain.ESend (TSend p1 (Accepted n1)) :: mid ++ Compose_chain.ESend (TSend p2 (Accepted n2)) :: post ->
+  no_restart (Compose_chain.send_events mid) -> accepted (Compose_chain.send_events mid) = [] ->
+  n2 = N.max (n1 + 1) (max_list (pendings (Compose_chain.send_events mid ++ [TSend p2 (Accepted n2)]))).
+Proof. exact Compose_chain.no_skip_across_cancels. Qed.
+Print Assumptions C08_no_skip_across_cancels.
